@@ -215,6 +215,8 @@ def c02(tier):
         qs.append(gq('shared_guarded_mutex_fallback', 'shared_guarded', 'mutex', [['SHARED_READ'], ['TRYSHARED_READ'], ['LOCK_RMW']], 3))
         qs.append(gq('shared_guarded_opt_timed_fallback', 'shared_guarded_opt', 'timed_mutex', [['TRYSHAREDUNTIL_READ'], ['SHARED_READ'], ['TRY_RMW']], 3))
         qs.append(gq('ordered_smutex_store', 'ordered_guarded', 'shared_mutex', [['SHARED_READ', 'TRYSHARED_READ'], ['STORE', 'MODIFY']], 3))
+        qs.append(gq('ordered_stm_timed_shared', 'ordered_guarded', 'shared_timed_mutex', [['TRYSHAREDFOR_READ'], ['TRYSHAREDUNTIL_READ'], ['MODIFY', 'STORE']], 3))
+        qs.append(gq('ordered_tm_timed_shared_fallback', 'ordered_guarded', 'timed_mutex', [['TRYSHAREDFOR_READ', 'TRYSHARED_READ'], ['MODIFY']], 3))
     else:
         for w in ('shared_guarded', 'shared_guarded_opt', 'ordered_guarded'):
             for m in MUTEXES:
@@ -624,3 +626,40 @@ SPECS['C07'] = dict(queries=c07, assumptions=COMMON_ASSUMPTIONS + [
     "this is NOT the full C++11 model: executions are SC interleavings plus the stale reads above; load buffering, consume, fences, mixed-size accesses are outside"],
     outside=["rcu_list / cow_guarded / deferred_guarded protocols under the monitor (shadow tables too small for their heap; named here rather than silently skipped)",
              "non-SC behaviours that need more than a one-deep store history", "std::atomic_thread_fence"])
+
+
+# ------------------------------------------------------------------------------------------------ C06 (deferred_guarded)
+STUB = ['-I', '/verif/harness/stubstd']
+
+
+def c06(tier):
+    qs = []
+    EU = ','.join(f'vp_eptr_note_.{k}:6' for k in (0,)) + ',vp_rethrow_exception.0:6'
+    def dq(name, threads, rounds, defines, order=None, **kw):
+        kw.setdefault('timeout', 1500)
+        kw.setdefault('unwind', 4)
+        return mk(name, 'c06_deferred.cpp', threads, rounds, order=order, final='vp_final', cover=kw.pop('cover'), defines=defines,
+                  opts={'yield_blocks': False}, checks='pointer', cflags=STUB, unwindset=EU, **kw)
+    S1, S2, Rd = ('S1', 'vp_sub1'), ('S2', 'vp_sub2'), ('R', 'vp_reader')
+    seq = dict(cflags=STUB, unwind=4, unwindset=EU, checks='pointer', timeout=1500)
+    if tier == 'quick':
+        # one thread; the queued path is forced by holding a shared handle: exercises enqueue, pending flag, drain order, futures
+        qs.append(mk('deferred_seq_queue_drain', 'c06_deferred.cpp', [], 1, seq=['vp_seq1'], final='vp_final', cover=1, defines=['EXPECT=3'], **seq))
+        qs.append(mk('deferred_seq_direct_then_queue', 'c06_deferred.cpp', [], 1, seq=['vp_seq2'], final='vp_final', cover=1, defines=['EXPECT=2'], **seq))
+    else:
+        qs.append(mk('deferred_seq_queue_drain', 'c06_deferred.cpp', [], 1, seq=['vp_seq1'], final='vp_final', cover=1, defines=['EXPECT=3'], **seq))
+        qs.append(mk('deferred_seq_direct_then_queue', 'c06_deferred.cpp', [], 1, seq=['vp_seq2'], final='vp_final', cover=1, defines=['EXPECT=2'], **seq))
+        qs.append(dq('deferred_detach_reader_R2', [S1, Rd], 2, ['NSUB1=1', 'NSUB2=0', 'KIND1=0'], cover=5, timeout=3400))
+        qs.append(dq('deferred_reader_detach_R2', [S1, Rd], 2, ['NSUB1=1', 'NSUB2=0', 'KIND1=0'], order=(1, 0), cover=5, timeout=3400))
+        qs.append(dq('deferred_detach_detach_R2', [S1, S2], 2, ['NSUB1=1', 'NSUB2=1', 'KIND1=0', 'KIND2=0'], cover=3, timeout=3400))
+    return qs
+
+
+SPECS['C06'] = dict(queries=c06, assumptions=COMMON_ASSUMPTIONS + [
+    "<future> is the harness-local replacement harness/stubstd/future (promise/future/packaged_task over mutex + condition_variable, documented contract); "
+    "the real libstdc++ <future> keeps its state behind libstdc++.so entry points for which no IR exists",
+    "quick tier: single-thread scenarios in which the queued path is forced by a shared handle held by the same thread (enqueue, pending flag, drain order, "
+    "exclusivity of the drain, futures); the interleavings of submitters, readers and drainers are decided only in the thorough tier, at 2 threads and 2 rounds",
+    "virtual run_task / packaged_task invocation run atomically (indirect calls); std::try_to_lock never fails spuriously"],
+    outside=["more than 2 threads or 2 rounds: a single modify_detach is ~100 visible steps (vector growth, packaged_task, shared state), three-thread queries did not terminate in 20 min",
+             "modify_async under concurrency (thorough tier has it only sequentially)", "exceptions thrown by queued functors under concurrency"])
